@@ -75,7 +75,15 @@ func lookupName[A p2p.Addr, K any](s p2p.Secure[A, K], src A, name func(K) strin
 	return name(p2p.LookupPublicKeyInHandler[A, K](s, src))
 }
 
+type pendingP2PKE struct {
+	adv      *attacker.Adv
+	cs       *attacker.Ciphers
+	own      bool
+	patience time.Duration
+}
+
 type mDialP2PKE struct {
+	pending *pendingP2PKE // first half of a handshake done, InitDone withheld
 	peer    string
 	ciphers *attacker.Ciphers
 	nonce   uint32
@@ -325,6 +333,15 @@ func drain(ch chan []byte) {
 
 // MPresent is one complete handshake attempt of M as initiator presenting key k.
 func (w *p2pkeWorld) MPresent(c int, k, proof string) string {
+	if res := w.MHello(c, k, proof); res != "RespHello received" {
+		return res
+	}
+	return w.MFinish(c)
+}
+
+// MHello is the first half of a handshake attempt: M's InitHello goes out and the RespHello is awaited.
+// From now on the honest node has a channel for M's transport address with a handshake in flight.
+func (w *p2pkeWorld) MHello(c int, k, proof string) string {
 	w.mu.Lock()
 	d := w.dials[c]
 	if d == nil {
@@ -356,6 +373,7 @@ func (w *p2pkeWorld) MPresent(c int, k, proof string) string {
 	ih, hs := adv.InitHello(keyBytes, ts, sig)
 	d.ciphers = nil
 	d.used = "none"
+	d.pending = nil
 	peer := d.peer
 	w.mu.Unlock()
 	w.mTell(peer, ih)
@@ -378,22 +396,48 @@ func (w *p2pkeWorld) MPresent(c int, k, proof string) string {
 			return "no RespHello"
 		}
 	}
-	own := proof == "own"
-	id := adv.InitDone(cs, own, garbage(64, w.attempt+1))
 	w.mu.Lock()
-	d.ciphers = cs
+	d.pending = &pendingP2PKE{adv: adv, cs: cs, own: proof == "own", patience: patience}
+	w.mu.Unlock()
+	return "RespHello received"
+}
+
+// MFinish is the second half: M's InitDone (signed with M's key, or garbage).
+func (w *p2pkeWorld) MFinish(c int) string {
+	w.mu.Lock()
+	d := w.dials[c]
+	if d == nil || d.pending == nil {
+		w.mu.Unlock()
+		return "no handshake in flight"
+	}
+	pd := d.pending
+	d.pending = nil
+	id := pd.adv.InitDone(pd.cs, pd.own, garbage(64, w.attempt+1))
+	d.ciphers = pd.cs
 	d.nonce = 16
-	if own {
+	if pd.own {
 		d.used = "M"
 	}
+	peer := d.peer
+	drain(d.rd)
 	w.mu.Unlock()
 	w.mTell(peer, id)
 	select {
 	case <-d.rd:
 		return "RespDone received"
-	case <-time.After(patience):
+	case <-time.After(pd.patience):
 		return "no RespDone"
 	}
+}
+
+func (w *p2pkeWorld) Lookup(n, x, t string, timeout time.Duration) string {
+	ctx, cf := context.WithTimeout(w.ctx, timeout)
+	defer cf()
+	k, err := w.swarms[n].LookupPublicKey(ctx, w.full(x, t))
+	if err != nil {
+		return "err"
+	}
+	return x509Name(&k)
 }
 
 func (w *p2pkeWorld) MAuth(c int, steps []Step) (string, [][]string) {
